@@ -574,7 +574,15 @@ func (ex *Exec) runFrame(fr *frame) {
 					fmt.Printf("    [%s] %s\n", fr.fn.Name(), instr)
 				}
 			}
-			if ex.visitInstr(fr, instr) == kReturn {
+			k := ex.visitInstr(fr, instr)
+			if ex.sh.trace {
+				if v, ok := instr.(ssa.Value); ok {
+					if s := toString(fr.get(v)); len(s) < 200 {
+						fmt.Printf("        -> %s\n", s)
+					}
+				}
+			}
+			if k == kReturn {
 				return
 			}
 		}
